@@ -160,7 +160,11 @@ impl<K: AnimationKey> AnimationChainBuilder<K> {
 
 pub(super) fn chain_animations<K: AnimationKey, T: Component>(
     mut events: EventReader<AnimationStateChanged>,
-    mut selector_query: Query<(&mut AnimationSelector<K, T>, &AnimationChain<K>, &Animator<T>)>,
+    mut selector_query: Query<(
+        &mut AnimationSelector<K, T>,
+        &AnimationChain<K>,
+        Ref<Animator<T>>,
+    )>,
 ) {
     for ev in events.iter() {
         let AnimationStateChanged { entity, state } = ev;
@@ -173,7 +177,12 @@ pub(super) fn chain_animations<K: AnimationKey, T: Component>(
         // The event does not say which animator on the entity ended. Only advance the chain when
         // the animator governed by this selector is the one that has ended, and it ended while
         // playing the current key (not a key that was assigned since and has not played yet).
-        if animator.state() != AnimationState::Ended
+        // An animator that reached its end some time ago stays `Ended` without being written to
+        // any more; requiring a change since this system last ran keeps the end of another
+        // animator on the entity from being taken for an end that was already looked at (while
+        // the chain had no entry for the key, say, or was not attached yet).
+        if !animator.is_changed()
+            || animator.state() != AnimationState::Ended
             || selector.previous_key.as_ref() != Some(&selector.timeline_key)
         {
             continue;
